@@ -10,7 +10,7 @@ def key(rec):
         cls = {0: "no-root", 1: "linear-derivative" if deg == 3 else "one-root", 2: "two-roots"}[len(crit)]
         return "extrema/%s/%s%s" % ("quadratic" if deg == 2 else "cubic", cls, "/root-outside" if outside else "")
     if rec["op"] == "bez_bounds":
-        return "bounds/parameters-instead-of-coordinates"
+        return "bounds/%s" % rec["ty"]
     return "%s/%s" % (rec["op"], rec.get("ty", ""))
 
 
